@@ -301,5 +301,18 @@ def rule_s6(repo):
     return renumbering_rule(repo, 'C14.S6')
 
 
+def rule_s7(repo):
+    """A subgoal that `trivial` closes is closed by a line whose statement the macro computes: the order in
+    which an expansion puts a stripped prefix back (C04.M15) decides whether that line proves what the suggestion
+    advertised."""
+    from .c04 import rule_m15
+    r = rule_m15(repo)
+    res = RuleResult('C14.S7', 'the line that closes a trivial subgoal proves the advertised statement: stripped prefixes are put back in order', floor=2)
+    for i in r.instances:
+        if 'logic/logic.py' in i.key:
+            res.add(i.key, i.ok, i.detail, i.loc)
+    return res
+
+
 def rules(repo):
-    return [rule_s1(repo), rule_s2(repo), rule_s3(repo), rule_s4(repo), rule_s5(repo), rule_s6(repo)]
+    return [rule_s1(repo), rule_s2(repo), rule_s3(repo), rule_s4(repo), rule_s5(repo), rule_s6(repo), rule_s7(repo)]
